@@ -1,0 +1,27 @@
+//! C18 (encrypted key store): one observation point between the two steps of
+//! the store file update (temporary file written, rename not yet done), so the
+//! harness can snapshot the directory exactly as a crash at that instant would
+//! leave it.  Adds code only.
+
+use std::path::Path;
+use std::sync::{Arc, RwLock};
+
+/// Callback: (label, path of the store file being updated).
+pub type KeystoreCrashHook = Arc<dyn Fn(&str, &Path) + Send + Sync>;
+
+static HOOK: RwLock<Option<KeystoreCrashHook>> = RwLock::new(None);
+
+/// Install (or remove) the process-wide callback.
+pub fn set_keystore_crash_hook(hook: Option<KeystoreCrashHook>) {
+    if let Ok(mut g) = HOOK.write() {
+        *g = hook;
+    }
+}
+
+/// Called by `EncryptedKeyStorageManager::encrypt_and_store` at each labelled point.
+pub fn keystore_crash_point(label: &str, storage_path: &Path) {
+    let hook = HOOK.read().ok().and_then(|g| g.clone());
+    if let Some(h) = hook {
+        h(label, storage_path);
+    }
+}
